@@ -24,6 +24,10 @@ const c04IncName = "c04_included.liquid"
 
 var c04Cur *sched.S // the scheduler of the execution in progress (one at a time per worker)
 
+// c04ShimOn: this binary was built with the repository's "sync" imports rewritten to verifmc/syncshim
+// (build tag schedshim + tools/overlay.sh sched), so the code's own locks/onces/pools are scheduling points.
+var c04ShimOn bool
+
 type pointDrop struct{ v any }
 
 func (d pointDrop) ToLiquid() any { c04Cur.Point("ToLiquid"); return d.v }
@@ -104,7 +108,7 @@ var c04Base = []string{
 	`<{% include "` + c04IncName + `" %}>{{ x }}`,
 	"{% case x %}{% when 'X' %}W{{ x }}{% else %}E{% endcase %}{% unless x %}U{% else %}V{% endunless %}",
 	"p{% raw %}{{ raw }}{% endraw %}{% comment %}zz{% endcomment %}q{{ d.k }}{{ d.l | join }}",
-	"{% for kv in m %}{{ kv[0] }}={{ kv[1] }};{% endfor %}{{ m.size }}{{ dl | join }}",
+	"{% for kv in m %}{{ kv[0] }}={{ kv[1] }};{% endfor %}{{ m.size }}{{ dl | join }}{{ dl[0] }}{% if dl[1] == 's' %}S{% endif %}",
 	"{% yb %}in{{ x }}{% endyb %}{% for i in l limit: 2 %}{% cycle 'g': '1', '2', '3' %}{% endfor %}",
 	// thorough
 	"{% assign l = l | reverse %}{% for i in l %}{{ i }}{% endfor %}{% assign x = nil %}{{ x }}",
@@ -160,6 +164,11 @@ func c04Scenarios(tier string) []c04Scenario {
 	}
 	for _, pr := range pairs {
 		out = append(out, c04Scenario{fmt.Sprintf("two-templates:t%d,t%d", pr[0], pr[1]), [][]c04Op{{r(pr[0])}, {r(pr[1])}}})
+	}
+	// two parses of different sources at once (parsing has scheduling points only where the library itself
+	// synchronises - locks, pools, caches - which the sync shim turns into points)
+	for _, pr := range pairs {
+		out = append(out, c04Scenario{fmt.Sprintf("two-parses:t%d,t%d", pr[0], pr[1]), [][]c04Op{{p(pr[0]), p(pr[1])}, {p(pr[1]), p(pr[0])}}})
 	}
 	// three goroutines
 	for _, t := range []int{0, 1, 3} {
@@ -303,6 +312,7 @@ func c04Families(tier string) []explore.Family {
 		}
 		first := true
 		outcomes := map[string]bool{}
+		var syncPoints int64
 		execs, truncated := sched.ExploreShard(func() []func(s *sched.S) {
 			b := mk()
 			// the scheduler object is created inside Execute; route Point calls through it
@@ -333,8 +343,20 @@ func c04Families(tier string) []explore.Family {
 				}
 				return map[string]any{"scenario": sc.name, "scripts": scripts, "schedule": run.Choices, "steps": labels, "templates": w.src}
 			}
+			for _, p := range run.Points {
+				if k := strings.Index(p.Label, "@"); k >= 0 {
+					switch l := p.Label[k+1:]; {
+					case strings.HasPrefix(l, "Once."), strings.HasPrefix(l, "Mutex."), strings.HasPrefix(l, "RWMutex."), strings.HasPrefix(l, "Pool."), strings.HasPrefix(l, "Map."), strings.HasPrefix(l, "WaitGroup."):
+						syncPoints++
+					}
+				}
+			}
 			if len(run.Panics) > 0 {
 				r.Violation("goroutine-panicked:"+sc.name, desc(), "no panic", strings.Join(run.Panics, "; "))
+				return
+			}
+			if run.Deadlock {
+				r.Violation("deadlock:"+sc.name, desc(), "every goroutine finishes", "no goroutine enabled while some are unfinished (blocked on a lock/once/waitgroup of the library)")
 				return
 			}
 			for g := range want {
@@ -371,6 +393,7 @@ func c04Families(tier string) []explore.Family {
 		})
 		c04Cur = nil
 		r.Count("schedules_explored", int64(execs))
+		r.Count("library_sync_points_scheduled", syncPoints)
 		if execs > 0 {
 			r.Class(fmt.Sprintf("%s/outcomes=%d", strings.SplitN(sc.name, ":", 2)[0], len(outcomes)))
 		}
@@ -640,16 +663,21 @@ func init() {
 	explore.Register(&explore.Prop{
 		ID:    "C04",
 		Level: "model_checking",
-		Rule: "(a) controlled scheduler: one engine, templates parsed once, one shared bindings map (slices, maps, Drops); 2 goroutines (3 for three scenarios) each running a script of 1-2 operations from {Render, FRender, Parse+Render} that collide (same template twice, parse of the source concurrently with its render, two templates using the same names); " +
+		Rule: "(a) controlled scheduler: one engine, templates parsed once, one shared bindings map (slices, maps, Drops); 2 goroutines (3 for three scenarios) each running a script of 1-2 operations from {Render, FRender, Parse+Render} that collide (same template twice, parse of the source concurrently with its render, two templates using the same names, two parses of different sources); " +
 			"scheduling points are owned by the harness and planted densely: an identity filter on every object, a no-op tag after every tag and object, a block, ToLiquid of shared Drops, every Write of the FRender writer, the start of every operation; all schedules with <=2 preemptions (quick; <=1 for 3 goroutines) / <=3 (thorough; <=2 for 3 goroutines) are executed, every result must equal the solo result and the shared bindings must be unchanged; " +
 			"(b) the same kind of bodies free-running in a separate -race build: one program per standard tag, per standard filter and per operator/access form, each rendered by 2, 8 and 32 goroutines at GOMAXPROCS 1, 4, 16 on the same parsed template, and concurrently with a parse of its own source (thorough: all pairs of tag programs); any race report or result differing from the sequential one is a violation; " +
 			"state = schedule (choice sequence) of a scenario; transition/trace = one complete execution under that schedule",
 		Assumptions: []string{
 			"between two scheduling points a goroutine runs atomically; finer interleavings are the race pass's job: renders contain no synchronisation, so two conflicting accesses are unordered in every schedule and one free-running run per program exposes them to the detector (up to its bounded shadow history)",
-			"the sync.Once inside values.dropWrapper is not instrumented: a dropWrapper is created per evaluation and never shared between goroutines",
+			"the library's own synchronisation is owned too: ./check C04 compiles every repository file that imports \"sync\" from a copy derived at build time in which that import is rewritten to verifmc/syncshim, whose Mutex, RWMutex, Once, Pool (deterministic LIFO: a Put object goes to the very next Get of any goroutine), Map and WaitGroup make every operation a scheduling point and make blocking visible (nobody enabled = deadlock, a violation); the counter library_sync_points_scheduled shows they were reached; sync/atomic, sync.Cond and channels are not shimmed (the tree uses none; a tree that starts using Cond/OnceFunc falls back to the unshimmed build, reported as a note)",
 			"the statement's 'static check for writes to captured variables' is static analysis (another technique family) and is not built; its defect class is covered dynamically by (b)",
 		},
 		Setup:    func(string) { c04.solo = map[string]string{} },
+		Post: func(tier string, r *explore.Rec) {
+			if !c04ShimOn {
+				r.Notes = append(r.Notes, "built WITHOUT the sync shim overlay: the library's own locks/onces/pools were not scheduling points in this run")
+			}
+		},
 		Families: c04Families,
 		Bound: func(tier string) string {
 			if tier == "thorough" {
